@@ -81,7 +81,7 @@ def capture (U : Universe) (names vss solvs : List Nat) : Snapshot :=
       | _ => [])))
   { solvables := ss.map (fun s => (s, { name := U.nameOf s, order := orderOf s, deps := U.deps s, hint := true })),
     versionSets := vs.map (fun v => (v, { name := U.vsName v, matching := sortNat (U.candsOf v) })),
-    unions := us.map (fun u => (u, sortNat (U.unionOf u))),
+    unions := us.map (fun u => (u, U.unionOf u)),
     packages := pkgs,
     strings := strs }
 
